@@ -30,13 +30,13 @@ CLAIMS = {
             "Equality with the single-setup matrix is not decided."),
     "C05": (f"{DEG} + {STR}",
             "z->s map normal form of ac2mp_poly (sibling of ssi.ac2mp), joint blanking of unstable eigenvalues and eigenvector columns, dimensionless basis "
-            "function, coefficient degrees (alpha ~ 1, beta ~ S), NaN padding of the four tables. Normal equations/companion form correctness not decided."),
+            "function, coefficient degrees (alpha ~ 1, beta ~ S), NaN padding of the four tables. basis function sampled on Nf lines from 0 to Nyquist inclusive (rational identity on the grid spacing). Normal equations/companion form correctness not decided."),
     "C06": (STR,
             "Band limits on one grid, first/second singular-value ratio over one slice, arg-max selection, slice-origin re-basing of the picked line for "
-            "frequency and vector alike, dominant vector, writer/reader agreement on the singular-vector layout. MAC=1 and unitarity are not decided."),
+            "frequency and vector alike, dominant vector, writer/reader agreement on the singular-vector layout. hand-over of result.S_val/S_vec/freq and of THIS call's band from FDD.mpe / mpe_from_plot to FDD_mpe (stale attribute reads are violations). MAC=1 and unitarity are not decided."),
     "C07": (DEG,
             "The array handed to the inverse FFT (the SDOF bell) has degree 1 in the spectral matrix for EFDD and FSDD, Fn/Xi have degree 0 in it and the "
-            "right time unit; no dimensional log/exp. The 2.5 %/15 % accuracy is not decided."),
+            "right time unit; no dimensional log/exp. Closed forms of the logarithmic-decrement fit; hand-over of spectrum, grid, dt, estimator and this call's DF1/DF2/fit parameters from EFDD.mpe / mpe_from_plot (through helpers and **kwargs); no rounding of dimensional quantities. The 2.5 %/15 % accuracy is not decided."),
     "C08": (f"{DEG} + def-use rule",
             "For all 30 algorithm/method configurations every run()/mpe() output is a homogeneous function of the data gain (degree 0) and of the time "
             "unit (frequencies 1/s, damping/shapes 1), no decision on the way is scale dependent, each normalisation divides a vector by its own "
@@ -44,11 +44,11 @@ CLAIMS = {
     "C09": ("dependence/taint interpretation + structural rules",
             "Each criterion of the run-parameter defaults reaches every pole table of the result (all six classes, criteria enabled), all tables share one "
             "criteria set, hc keys are bound to the implementing parameters, the keep-conditions have the stated sense, applymask keeps/NaNs correctly. "
-            "Behaviour within 1e-9 of a threshold is not decided."),
+            "every applymask call binds the filtered tables back to the variables they came from, position by position. Behaviour within 1e-9 of a threshold is not decided."),
     "C10": (f"{STR} + {IDX}",
             "SC_apply compares with the previous order, matches the nearest pole in frequency with one index for all three quantities, tests each relative "
             "difference strictly against its own tolerance joined by and, loops over range(ordmin, ordmax+1, step), skips the first column, writes only "
-            "0/1 into a fresh array; readers compare labels only with values the writer produces."),
+            "0/1 into a fresh array; every run() hands sc[err_fn|err_xi|err_phi] to the tolerance parameter of the same name; readers compare labels only with values the writer produces."),
     "C11": (STR,
             "SSI_mpe/pLSCF_mpe (int, list, find_min): closeness test against the loop's own frequency, all values of a mode from one (row, column) with "
             "column = requested order and row = nearest pole, appends guarded by the test, slots fed by the table of the same kind, first-qualifying-order "
@@ -56,18 +56,18 @@ CLAIMS = {
     "C12": (f"{WIN} + {DEG}",
             "Lag/length/weight/bounds of every block of the Hankel (cov_mm, dat) and Toeplitz (cov_R) matrices as polynomial identities in (br, channels, "
             "record length): lag i+c+1 resp. br+i-c, equal lengths, uniform weights, windows inside the record, br+1 x br+1 blocks, all-channel rows and "
-            "reference columns, R-factor block of the dat method; bilinearity by degree analysis. The projection identity is not decided."),
+            "reference columns, R-factor block of the dat method; bilinearity by degree analysis. the method given in the run parameters (class default only as fallback) reaches the Hankel builder. The projection identity is not decided."),
     "C13": (f"{DEG} + {STR}",
             "Frequency grid unit and spacing, bilinearity of the spectral matrix in (data, reference data), operand pairing/axes of the csd calls (fixes the "
-            "(i,j) pairing and the conjugation convention), overlap/segment/window keywords. Welch equivalence and tolerances are not decided."),
+            "(i,j) pairing and the conjugation convention), overlap/segment/window keywords. every run() that calls SD_est hands it run_params.nxseg / method_SD / pov and its own dt. Welch equivalence and tolerances are not decided."),
     "C14": (f"{DEG} (inductive invariants per mutator) + {STR}",
             "The representation invariant (dt*fs=1, duration = samples*dt, counts = extents of the stored arrays, data = split(stored datasets)) is established "
             "by the constructors and preserved by every mutator from an arbitrary invariant state, hence after every call sequence; post-conditions of "
-            "decimate/detrend/filter/rollback/add_algorithms; kwargs forwarding; no in-place effect on user or initial arrays."),
+            "decimate/detrend/filter/rollback/add_algorithms; keywords the user did not give reach scipy with scipy's own defaults, axis = 0 observed at the abstract call, no rounding (//, int, round) of a dimensional quantity; kwargs forwarding; no in-place effect on user or initial arrays."),
     "C15": (f"{STR} over the resolved call graph",
             "Gate order in run_by_name, _pre_run conditions, every mpe/mpe_from_plot override gated before its first store, no in-place effect on shared "
             "data and no nondeterministic source in any function reachable from run/mpe, fresh result objects, instance-only state, PoSER validation "
-            "structure (ValueError only, count guard, checked yields, eager exhaustion), picklable instance attributes."),
+            "structure (ValueError only, count guard, checked yields, eager exhaustion), exact (not isinstance) type comparison; picklable instance attributes."),
     "C16": (STR,
             "Per dialog variant: the frequency list and its partner list receive the same mutation in every block of every reachable method (so pairs "
             "survive any click sequence), no list arithmetic, pick = nearest order then nearest retained pole, deselect-nearest by frequency, result tuple."),
@@ -76,10 +76,10 @@ CLAIMS = {
             "estimate scaling as a polynomial identity, 1/sqrt(nb(nb-1)) scaling, variance slot. Equality with a directional derivative is not decided."),
     "C18": (f"{DEG} + {STR}",
             "Degree 0 of MAC/MPC/MPD/MCF in each argument's real scale and MSF ~ b/a; every arccos argument clipped, sqrt arguments sums of squares, "
-            "per-component quotients guarded (finite, never NaN); MAC row/column/normaliser pairing. Bounds and complex-factor invariance not decided."),
+            "per-component quotients guarded (finite, never NaN); MAC row/column/normaliser pairing. isclose(x, 0) on a scaled quantity is a scale-dependent decision; vectorised normalisers (outer products) oriented rows = first set. Bounds and complex-factor invariance not decided."),
     "C19": (f"{STR} + {SEQ}",
             "Forward presence analysis of the sheet dictionary (every optional-sheet read guarded), zero-basing list covers all index sheets, re-indexing by "
-            "the flattened sensor names of what is returned, ValueError-only validation, attribute compatibility with the documented argument types."),
+            "the flattened sensor names of what is returned, GeometryN built keyword by keyword from the validated tables (linked through the sheet names), ValueError-only validation, attribute compatibility with the documented argument types."),
     "C20": (STR,
             "Signature conformance of every call into functions.plot, keyword binding of result fields, one flatten order with a consistent order-axis "
             "formula scaled by step, label selections with NaN fill for frequency and damping alike, CMIF curves relative to the first singular value's maximum."),
